@@ -11,7 +11,7 @@ from .. import common as C
 from .. import flock_drv as D
 
 PROP = 'C13'
-READY = False
+READY = True
 PROPS_MODULE = 'C13'
 MODEL_TARGETS = ['theories/Case_C13.vo']
 HEADER = ('From Coq Require Import List NArith. Import ListNotations.\n'
@@ -154,12 +154,18 @@ def distribution(cases, obs):
     return d
 
 
-LEVEL_TEXT = ('props/C13.v proves on the model (coq/theories/FLock.v): after ECrash p no open file description of p remains '
-              'and the path is free or held by a survivor whatever pc p\'s threads had reached; with nobody holding, a fresh '
-              'process\'s non-blocking acquire succeeds in its first attempt; mutual exclusion holds over schedules with crashes '
-              '(the C02 theorem); the step function never reads file content.  The crash semantics itself is the kernel '
-              'assumption; it is validated by SIGKILLing a real victim at every line event of aiuti/filelock.py and comparing '
-              'what the parent / survivors observe with the model\'s prediction for the pc the victim had reached.')
-LEVEL_NOTE = ('trusted: Coq kernel + vm_compute; no axioms; kernel releases flock on process death (assumption, exercised); '
-              'victim/contender scripts in harness/flock_proc.py')
+LEVEL_TEXT = ('props/C13.v proves on the model (coq/theories/FLock.v; lemmas in FLockCrash.v on top of the C02 invariants), for '
+              'every reachable state = whatever point of acquire()/release() (blocking, timed, polling, reentrant-nested, '
+              'mid-release) the threads of the victim and of everybody else have reached, under any OSError script: '
+              'crash_releases (after ECrash p no open file description of p remains; a lock held through a descriptor of p is '
+              'free; a lock still held is held by the same, open descriptor of a live process other than p), mutex_after_crash '
+              '(the C02 theorem over event lists containing crashes), acquirable_after_crash (if no survivor holds or is giving up '
+              'the lock, an idle contender of a live process gets True from its first attempt, any flavour, 4 primitive steps, no '
+              'waiting), no_soft_state (two runs differing only in the lock file\'s content agree on every other component: '
+              'nothing ever reads the file).  The crash semantics itself is the kernel assumption; it is validated by SIGKILLing '
+              'a real victim at every line event of aiuti/filelock.py and comparing what the parent / survivors observe with the '
+              'model\'s prediction for the pc the victim had reached.')
+LEVEL_NOTE = ('trusted: Coq kernel + vm_compute; no axioms; kernel releases flock on process death (= the model\'s ECrash: '
+              'assumption, exercised by the crash enumeration, not proved); victim/contender scripts in harness/flock_proc.py; '
+              '"promptly" = first non-blocking attempt after waitpid')
 TECHNIQUE = 'Coq proof (crash lemmas + invariant shared with C02) + crash-point enumeration on the real OS compared with the model inside Coq'
